@@ -196,7 +196,7 @@ ConsSet(m, pos) ==
 ConsensusOK(m, cs) == Len(cs) = m.len /\ \A pos \in 1..m.len : cs[pos] \in ConsSet(m, pos)
 
 \* ------------------------------------------------------ information content
-\* log2(n) * 4096 for an integer n in 1..131071, by repeated squaring of a 14-bit mantissa
+\* log2(n) * 4096 for an integer n >= 1, by repeated squaring of a 14-bit mantissa
 RECURSIVE FloorLog2(_, _)
 FloorLog2(n, e) == IF n < 2 THEN e ELSE FloorLog2(n \div 2, e + 1)
 RECURSIVE Pow2(_)
@@ -207,7 +207,9 @@ FracBits(xf, k, acc) ==                   \* xf = mantissa * 2^14 in [2^14, 2^15
     ELSE LET sq == (xf * xf) \div 16384
          IN  IF sq >= 32768 THEN FracBits(sq \div 2, k - 1, 2 * acc + 1)
              ELSE FracBits(sq, k - 1, 2 * acc)
-Log2FP(n) == LET e == FloorLog2(n, 0) IN e * 4096 + FracBits((n * 16384) \div Pow2(e), 12, 0)
+Log2FP(n) == LET e  == FloorLog2(n, 0)
+                 xf == IF e <= 14 THEN n * Pow2(14 - e) ELSE n \div Pow2(e - 14)     \* no overflow for any n < 2^31
+             IN  e * 4096 + FracBits(xf, 12, 0)
 
 \* -p log2 p in milli-bits for p = w / t
 EntMilli(w, t) == IF w = 0 THEN 0 ELSE (((w * 10000) \div t) * (Log2FP(t) - Log2FP(w))) \div 40960
